@@ -899,6 +899,9 @@ func check(prop, tier string) int {
 						return // the case kills its worker: nothing to compare (it is reported through the crash path)
 					}
 					detChecked += 2
+					if got[0].Clause == "wall-clock-stall" || got[1].Clause == "wall-clock-stall" {
+						return // decided by the wall clock, not by the seed
+					}
 					if got[0].Hash != got[1].Hash || got[0].Verdict != got[1].Verdict || got[0].Steps != got[1].Steps {
 						detMismatch++
 						detMsg = fmt.Sprintf("case %d alone: GOMAXPROCS=1 hash=%s steps=%d verdict=%s; GOMAXPROCS=16 hash=%s steps=%d verdict=%s", i, got[0].Hash, got[0].Steps, got[0].Verdict, got[1].Hash, got[1].Steps, got[1].Verdict)
@@ -928,7 +931,9 @@ func check(prop, tier string) int {
 						dmu.Lock()
 						if ok {
 							detChecked++
-							if w.Verdict != l.Record.Verdict || w.Clause != l.Record.Clause || (!pl.DetVerdict && (w.Hash != l.Record.Hash || w.Steps != l.Record.Steps)) {
+							// a wall-clock stall is decided by the wall clock (machine load), not by the seed: nothing to compare
+							stalled := w.Clause == "wall-clock-stall" || l.Record.Clause == "wall-clock-stall"
+							if !stalled && (w.Verdict != l.Record.Verdict || w.Clause != l.Record.Clause || (!pl.DetVerdict && (w.Hash != l.Record.Hash || w.Steps != l.Record.Steps))) {
 								detMismatch++
 								detMsg = fmt.Sprintf("case %d: batch run hash=%s steps=%d verdict=%s; re-run (GOMAXPROCS=%d) hash=%s steps=%d verdict=%s", l.Record.I, w.Hash, w.Steps, w.Verdict, gmp, l.Record.Hash, l.Record.Steps, l.Record.Verdict)
 							}
